@@ -113,6 +113,18 @@ def run_stream(prop, res, sc, workdir):
             dl = [l for l in V.read_lines(cdesc_path) if l.strip() and not l.startswith("#")]
             if len(dl) == len(cin):
                 cdesc = ["corpus " + l for l in dl]
+
+        cin, cdesc, last = [], [], ""
+        for l in V.read_lines(corpus):
+            if l.startswith("#"):
+                last = l[1:].strip()      # a comment line describes the case that follows it
+            elif l.strip():
+                cin.append(l)
+                cdesc.append("corpus: " + last if last else "corpus")
+                last = ""
+        rc, cout = V.run_h(["run", sc.name], inp="\n".join(cin) + "\n")
+        couts = cout.split("\n")[:len(cin)]
+        # prepend
         for suf, extra in ((".in", cin), (".impl", couts), (".desc", cdesc)):
             body = open(prefix + suf).read()
             with open(prefix + suf, "w") as f:
@@ -894,3 +906,27 @@ reg(Prop("C09", "Fast checkmate and stalemate tests agree with the absence of le
          assumptions=["Rep b (the three encodings of the placement agree, C04), valid (abs b), normal_ep (abs b); the theorems speak about legal_moves of the spec (C01 identifies them with the engine's playable moves)",
                       "IsCheckmate is specified only for positions in check, IsStalemate only for positions not in check (their only callers, search.go quiescence, guarantee this; outside its domain IsCheckmate panics on InBetween[kingSq][64])"],
          design_ref="5/C09"))
+
+
+reg(Prop("C02", "Playing a move produces the successor position the rules prescribe", "Properties/C02.v",
+         [StreamCfg("c02", 60000, 1200000, judge="judge_c02",
+                    rule="fixed en-passant / clock witnesses (F2, F5 and relatives); 25 % dedicated en-passant generator "
+                         "(double push next to enemy pawns with the enemy king and an own slider lined up through the "
+                         "destination, capturer, origin or passed-over square; both colours); 10 % positions with the "
+                         "halfmove clock set to 98..101, 126..129, 254..257, 32765, 32766; the rest G1/G2/G4 positions x "
+                         "every legal move; non-trivial = every case (a legal move played), distinct by (FEN, clock, move)"),
+          StreamCfg("c02uci", 3000, 60000, judge="judge_c02uci",
+                    rule="fresh in-process uci.Driver per case: position startpos|fen F moves ... then fen; legal lines "
+                         "of 0..24 (10 %: 60..140) plies, 60 % with one bad token in the middle (possible-but-illegal move, "
+                         "random square pair, wrong promotion suffix, malformed, one byte mutated, alias spelling); "
+                         "non-trivial = a non-empty move list, distinct by input")],
+         trusted=["hooks board/export_verif.go (VerifSnapshot/VerifRestore: field copies) and the exported uci.NewDriver options; "
+                  "harness/hx/fen.go (strict parser of the printed FEN into six integers, independent of board.FromFEN)",
+                  "the position set up by `position fen F` is taken from board.FromFEN (FEN parsing is property C11)",
+                  "attack tables = ray geometry is property C12 (Model/Att.v uses the geometric definitions; the streams run "
+                  "the Go code, which uses the magic tables, against them)"],
+         assumptions=["halfmove clock before the move in 0..32766 (int16 after fix cb6b25d; C02_clock states the wrap)",
+                      "chain theorems: Zobrist table entries below 2^64 (zob_ok; proved for the generated tables, Example C02_zob_real_ok); "
+                      "they re-establish valid_core (one king per side, side not to move not in check, consistent en-passant target), not the "
+                      "remaining conjuncts of valid"],
+         design_ref="5/C02"))
